@@ -70,11 +70,19 @@ def cases(draw):
     data["pname"] = r.choice(PARTIAL_NAMES + ["missing"])
     if cfg.get("ns"):
         data["ns"] = r.choice(["u1", "u2"])
-    return {"cfg": cfg, "main": main, "partials": parts, "data": data, "order": r.choice(["sync-first", "async-first"])}
+    case = {"cfg": cfg, "main": main, "partials": parts, "data": data, "order": r.choice(["sync-first", "async-first"])}
+    if r.random() < 0.15 and main and main[0].get("k") != "extends":
+        case["snippet"] = gg.Gen(r, _profile(cfg, partial="render")).block(1)
+    return case
 
 
 def _sources(case) -> tuple[str, dict]:
-    return gg.to_source(case["main"]), {n: gg.to_source(a) for n, a in case["partials"].items()}
+    src = gg.to_source(case["main"])
+    if case.get("snippet") is not None:
+        # an inline snippet (opt-in tag) defined and rendered by name, with and without arguments
+        body = gg.to_source(case["snippet"])
+        src = "{% snippet sn %}" + body + "{% endsnippet %}{% render sn %}|{% render sn, x: 1 %}|" + src
+    return src, {n: gg.to_source(a) for n, a in case["partials"].items()}
 
 
 def _analysis_norm(a) -> tuple:
@@ -136,7 +144,12 @@ def evaluate(case) -> Verdict:
         scratches.append(shared)
 
     def env_():
-        return envs.make_env(cfg, psrc, shared)
+        e = envs.make_env(cfg, psrc, shared)
+        if case.get("snippet") is not None:
+            from liquid.extra import SnippetTag
+
+            e.add_tag(SnippetTag)
+        return e
 
     try:
         # (1) render: separately constructed, identical environments
@@ -191,6 +204,9 @@ def evaluate(case) -> Verdict:
         an_s = oc.outcome_of(lambda: _analysis_norm(t6.analyze()))
         an_a = oc.outcome_async(lambda: _analyze_async(t7))
         _cmp(v, "analyze", an_s, an_a)
+        an_s0 = oc.outcome_of(lambda: _analysis_norm(t6.analyze(include_partials=False)))
+        an_a0 = oc.outcome_async(lambda: _analyze_async(t7, include_partials=False))
+        _cmp(v, "analyze-without-partials", an_s0, an_a0)
         for name in PARTIAL_NAMES[:2] + ["missing"]:
             ts = oc.outcome_of(lambda: _tags_norm(e6.analyze_tags(name)))
             ta = oc.outcome_async(lambda: _tags_async(e7, name))
@@ -216,8 +232,8 @@ async def _render_loaded_async(env, name, g, kw, data):
     return await t.render_async(**data)
 
 
-async def _analyze_async(t):
-    return _analysis_norm(await t.analyze_async())
+async def _analyze_async(t, include_partials: bool = True):
+    return _analysis_norm(await t.analyze_async(include_partials=include_partials))
 
 
 async def _tags_async(env, name):
@@ -236,7 +252,8 @@ def finish_kwargs(ctx: core.Ctx, tier: str) -> dict:
             "(names with directories and suffixes), JSON-like data, random env flags/tolerance/undefined "
             "type, dict/choice/file-system loaders and their caching variants with/without namespace. "
             "Each case compares sync vs async for render (separate and shared environments), "
-            "get_template (name, source, path, globals, matter, render), analyze and analyze_tags. "
+            "get_template (name, source, path, globals, matter, render), analyze (with and without partials) and "
+            "analyze_tags; 15% of the templates define and render an inline snippet (opt-in snippet tag). "
             "Non-trivial = the template parses and contains a construct with a separately written async "
             "path; distinct by hash of the whole case."
         ),
